@@ -57,32 +57,33 @@ type KnownHit struct {
 
 // HarnessResult aggregates everything observed while exploring one harness.
 type HarnessResult struct {
-	mu            sync.Mutex
-	Name          string
-	Paths         int
-	SymbolicPaths int // completed paths with at least one symbolic decision
-	Aborted       int // paths dropped because an assumption was infeasible
-	Obligations   int
-	Discharged    int
-	TrivialOblig  int // obligations whose condition was concretely true
-	Violations    []Violation
-	Inconclusive  []Inconclusive
-	KnownHits     []KnownHit
-	Covers        map[string]map[string]string // label -> sample model
-	CoverCount    map[string]int
-	Funcs         map[string]int64 // fx-core function -> instructions executed
-	Intrinsics    map[string]int
-	Assumptions   map[string]bool
-	Feasibility   int
-	ObligQueries  int
-	SolverTime    time.Duration
-	SolverErrors  int
-	Steps         int64
-	MaxDecisions  int
-	Wall          time.Duration
-	PathLimitHit  bool
-	ObligSMT      []ObligQuery   // obligation queries as standalone SMT-LIB2 text (for cross-checking)
-	Panics        map[string]int // expected (tolerated) panic messages and their counts
+	mu              sync.Mutex
+	Name            string
+	Paths           int
+	SymbolicPaths   int // completed paths with at least one symbolic decision
+	Aborted         int // paths dropped because an assumption was infeasible
+	Obligations     int
+	Discharged      int
+	TrivialOblig    int // obligations whose condition was concretely true
+	ImplicitNoPanic int // paths that ended without a panic (implicit obligation per path)
+	Violations      []Violation
+	Inconclusive    []Inconclusive
+	KnownHits       []KnownHit
+	Covers          map[string]map[string]string // label -> sample model
+	CoverCount      map[string]int
+	Funcs           map[string]int64 // fx-core function -> instructions executed
+	Intrinsics      map[string]int
+	Assumptions     map[string]bool
+	Feasibility     int
+	ObligQueries    int
+	SolverTime      time.Duration
+	SolverErrors    int
+	Steps           int64
+	MaxDecisions    int
+	Wall            time.Duration
+	PathLimitHit    bool
+	ObligSMT        []ObligQuery   // obligation queries as standalone SMT-LIB2 text (for cross-checking)
+	Panics          map[string]int // expected (tolerated) panic messages and their counts
 }
 
 func newHarnessResult(name string) *HarnessResult {
@@ -107,24 +108,26 @@ type Options struct {
 }
 
 type pathCtx struct {
-	w         *worker
-	solver    *Solver
-	prefix    []int
-	decisions []int
-	symDecs   int
-	vars      []*Term
-	varNames  map[string]bool
-	steps     int64
-	known     []knownReg
-	pcTerms   []*Term // asserted path-condition terms, for exporting obligation queries
-	fnSteps   map[*ssa.Function]int64
-	intr      map[string]int
-	nAnon     int
-	panicOK   bool
-	hashes    map[string][]hashRec
-	funcs     map[string][]hashRec
-	decimals  map[*Term]sstr
-	bech      []bechRec
+	w          *worker
+	solver     *Solver
+	prefix     []int
+	decisions  []int
+	symDecs    int
+	vars       []*Term
+	varNames   map[string]bool
+	steps      int64
+	known      []knownReg
+	pcTerms    []*Term // asserted path-condition terms, for exporting obligation queries
+	fnSteps    map[*ssa.Function]int64
+	intr       map[string]int
+	nAnon      int
+	panicOK    bool
+	hashes     map[string][]hashRec
+	funcs      map[string][]hashRec
+	decimals   map[*Term]sstr
+	symMaps    map[uintptr]*[]symEntry
+	symMapKeep []map[value]value
+	bech       []bechRec
 }
 
 type worker struct {
@@ -618,6 +621,14 @@ func (w *worker) runPath(fn *ssa.Function, prefix []int) {
 		}()
 		call(w.i, nil, token.NoPos, fn, nil)
 		completed = true
+		if !px.panicOK && !ex.opt.PanicOK {
+			// implicit obligation of every path: no panic escaped the harness
+			res.mu.Lock()
+			res.Obligations++
+			res.Discharged++
+			res.ImplicitNoPanic++
+			res.mu.Unlock()
+		}
 	}()
 	w.solver.Pop()
 	res.mu.Lock()
@@ -677,6 +688,12 @@ func (i *interpreter) panicText(v value) string {
 		}
 		if s, ok := x.v.(string); ok {
 			return s
+		}
+		if ee, ok := x.v.(*engErr); ok {
+			if s, ok := ee.msg.(string); ok {
+				return s
+			}
+			return "<error with symbolic text>"
 		}
 		// error values: try to render
 		if s, ok := i.errorText(x); ok {
